@@ -193,8 +193,9 @@ Definition player_ok : bool :=
   && automate_pay_is_mandatory_size && player_passes_at_once && player_suspended_automates_at_once && player_waits_action_time
   && subset_s player_request_calls ["Pass"].
 Definition observer_ok : bool :=
-  subset_s ["TableGamePlaying"; "TableGameSettled"] observer_filtered_statuses && observer_filter_skipped_only_in_system_mode
+  observer_filters_whenever_a_hand_is_attached && observer_filter_skipped_only_in_system_mode
   && observer_filters_before_publishing && adapter_hands_out_a_copy.
 Lemma bot_ok_holds : bot_ok = true.  Proof. vm_compute. reflexivity. Qed.
 Lemma player_ok_holds : player_ok = true.  Proof. vm_compute. reflexivity. Qed.
 Lemma observer_ok_holds : observer_ok = true.  Proof. vm_compute. reflexivity. Qed.
+Lemma observer_always_filters : observer_filters_whenever_a_hand_is_attached = true.  Proof. vm_compute. reflexivity. Qed.
